@@ -1,5 +1,6 @@
 import RSVerif.Properties.C09
 #print axioms RS.rate_rule'
+#print axioms RS.source_rate_rule
 #print axioms RS.default_new_eq_dedicated
 #print axioms RS.default_new_eq_dedicated_dec
 #print axioms RS.default_reset_rate
